@@ -317,7 +317,7 @@ func (st *State) exec(g *Goroutine, fr *Frame, in ssa.Instruction) status {
 		if s == stNext {
 			return stJumped // native completed; re-execute RunDefers
 		}
-		if s == stRetry {
+		if s == stRetry || s == stYield {
 			// put it back, it will be retried
 			fr.defers = append(fr.defers, d)
 		}
@@ -958,6 +958,8 @@ func (st *State) stringOp(op token.Token, a, b Value) Value {
 type opaqueStr struct {
 	id   int
 	desc string
+	fam  string  // injective family: strings of one family are equal iff their inj tuples are equal
+	inj  []Value
 }
 
 func (st *State) newOpaque(desc string) *opaqueStr {
@@ -970,17 +972,39 @@ func (st *State) opaqueStrOp(op token.Token, a, b Value) Value {
 	ob, _ := b.(*opaqueStr)
 	switch op {
 	case token.ADD:
+		// constant prefix/suffix around a member of an injective family stays injective
+		if oa == nil && ob != nil && ob.inj != nil {
+			if sa, ok := a.(string); ok {
+				n := st.newOpaque("concat")
+				n.fam, n.inj = sa+"+"+ob.fam, ob.inj
+				return n
+			}
+		}
+		if ob == nil && oa != nil && oa.inj != nil {
+			if sb, ok := b.(string); ok {
+				n := st.newOpaque("concat")
+				n.fam, n.inj = oa.fam+"+"+sb, oa.inj
+				return n
+			}
+		}
 		return st.newOpaque("concat")
-	case token.EQL:
-		if oa != nil && ob != nil && oa == ob {
-			return true
+	case token.EQL, token.NEQ:
+		var res Value
+		switch {
+		case oa != nil && ob != nil && oa == ob:
+			res = true
+		case oa != nil && ob != nil && oa.inj != nil && ob.inj != nil && oa.fam == ob.fam:
+			res = true
+			for i := range oa.inj {
+				res = st.andV(res, st.equal(types.Typ[types.Uint8], oa.inj[i], ob.inj[i]))
+			}
+		default:
+			st.unsupported("equality on opaque strings")
 		}
-		st.unsupported("equality on opaque strings")
-	case token.NEQ:
-		if oa != nil && ob != nil && oa == ob {
-			return false
+		if op == token.NEQ {
+			return st.notV(res)
 		}
-		st.unsupported("equality on opaque strings")
+		return res
 	}
 	st.unsupported("op %v on opaque string", op)
 	return nil
@@ -1484,6 +1508,9 @@ func keyString(v Value, sb *strings.Builder) bool {
 	case *Closure, *MapObj, *ChanObj:
 		fmt.Fprintf(sb, "r%p;", x)
 	case *opaqueStr:
+		if x.inj != nil {
+			return false // member of an injective family: equality is decided on its arguments
+		}
 		fmt.Fprintf(sb, "o%d;", x.id)
 	default:
 		return false
